@@ -24,6 +24,12 @@ open Lzma Rc
 /-- the status the models use for an exhausted recursion bound -/
 abbrev FE : Status := .err "fuel exhausted"
 
+theorem initStatus_ne_FE (seg : List Nat) : initStatus seg ≠ FE := by
+  unfold initStatus
+  cases seg with
+  | nil => simp
+  | cons b0 t => simp only; split_ifs <;> simp
+
 /-! ### one decoder step -/
 
 theorem decStep_fail_status (p : Props) (d d' : DecSt) (st : Status) (h : decStep p d = .fail d' st) : st ≠ FE := by
@@ -415,7 +421,7 @@ theorem lzma1_read_fuel (cfgCap : Nat) (inp : ByteArray) : (Lzma1.read cfgCap in
       split
       · simp
       · cases hi : Dec.init (bytesToList inp 13 inp.size) with
-        | none => dsimp only; split <;> simp
+        | none => dsimp only; exact initStatus_ne_FE _
         | some rd =>
           dsimp only
           obtain ⟨h1, h2⟩ := init_spec _ _ hi
@@ -449,7 +455,7 @@ def ChunkPost (r : RState) : ChunkRes → Prop
 /-- the part of `readChunk` after the range decoder was started -/
 macro "lz_tail" : tactic => `(tactic| (
   split
-  · exact ⟨by split <;> simp, by (try dsimp only); omega⟩
+  · exact ⟨initStatus_ne_FE _, by (try dsimp only); omega⟩
   · try dsimp only
     generalize hres : decSegment _ _ _ _ _ _ = res
     have hst : res.status ≠ FE := by
